@@ -95,6 +95,10 @@ def _fold_eval(e: ast.expr, env: Dict[str, object], case: Tuple[int, bool], ctx:
         if isinstance(e.op, (ast.Add, ast.Sub)):
             l, r = as_lin(ev(e.left)), as_lin(ev(e.right))
             s = 1 if isinstance(e.op, ast.Add) else -1
+            # exactness: a non-zero constant added to the unreduced coordinate (unbounded magnitude, or tiny) is
+            # absorbed by rounding: |val| >= 2**53 or |val| < 2**-53 lose the constant / the value
+            if (l.a != 0 and r.is_const() and r.c != 0) or (r.a != 0 and l.is_const() and l.c != 0):
+                env.setdefault("__inexact__", []).append(e)
             return Lin(l.a + s * r.a, l.b + s * r.b, l.c + s * r.c)
         if isinstance(e.op, ast.Mult):
             l, r = as_lin(ev(e.left)), as_lin(ev(e.right))
@@ -161,8 +165,12 @@ def _fold_eval(e: ast.expr, env: Dict[str, object], case: Tuple[int, bool], ctx:
             v = as_lin(ev(args[0]))
             if v.is_const():
                 return Lin(0, 0, abs(v.c))
-            if v.a == 0 and v.b >= 0 and v.c >= 0:
-                return v
+            if v.a == 0:
+                lo, hi = (v.c, v.c) if rzero else (min(v.c, v.c + v.b), max(v.c, v.c + v.b))
+                if lo >= 0:
+                    return v
+                if hi <= 0:
+                    return Lin(0, -v.b, -v.c)
             raise Undecided("abs of a fold value of unknown sign")
         raise Undecided(f"call {name}")
     if isinstance(e, ast.IfExp):
@@ -242,8 +250,9 @@ def rule_d(ctx: Context, R: Reporter, bmap: FuncInfo):
         idxvar = lp.stmt.target.id if isinstance(lp.stmt.target, ast.Name) else None
         results = {}
         undecided = None
+        inexact = []
         for case in CASES:
-            env: Dict[str, object] = {}
+            env: Dict[str, object] = {"__inexact__": inexact}
             # the input coordinate, under any subscript spelling that selects index idxvar
             out = None
             try:
@@ -278,6 +287,17 @@ def rule_d(ctx: Context, R: Reporter, bmap: FuncInfo):
                 undecided = str(ex)
                 break
             results[case] = out
+        seen_ix = set()
+        for ix in inexact:
+            if norm_text(ix) in seen_ix:
+                continue
+            seen_ix.add(norm_text(ix))
+            R.check("C16.d", f"{role} fold: the unreduced coordinate only meets exact operations (floor, mod, its own floor subtracted)", False, bmap, ix,
+                    msg=f"{bmap.short}: `{unparse(ix)[:60]}` adds a constant to the unreduced coordinate: in floating point the constant is absorbed for |val| >= 2**53 "
+                        f"(the fold lands on the wrong end point) and tiny in-range values are absorbed into the constant (points already in [0,1] are not returned unchanged)",
+                    key=f"fold-exact:{role}:{norm_text(ix)[:40]}")
+        if not inexact:
+            R.check("C16.d", f"{role} fold: the unreduced coordinate only meets exact operations (floor, mod, its own floor subtracted)", True, bmap, lp.stmt, key=f"fold-exact:{role}")
         if undecided is not None:
             raise AnalysisError(f"C16.d: {role} fold not decidable in the fold domain: {undecided}")
         for case, got in results.items():
@@ -394,6 +414,9 @@ def rule_c(ctx: Context, R: Reporter, pred: FuncInfo):
             for b in ast.walk(n.stmt.value):
                 if isinstance(b, ast.BinOp) and isinstance(b.op, ast.Sub) and "range" in norm_text(rs.resolve(b.left, n)):
                     strict_defs.append((n, b))
+                elif isinstance(b, ast.Call) and (ctx.res.external_name(pred, b) or "") == "numpy.setdiff1d" and len(b.args) >= 2 and "range" in norm_text(rs.resolve(b.args[0], n)):
+                    # set difference spelled with numpy (duplicates in the second operand are harmless)
+                    strict_defs.append((n, ast.BinOp(left=b.args[0], op=ast.Sub(), right=b.args[1])))
     R.floor("C16.c", "definitions of the strict index set", len(strict_defs), 1)
     for (n, b) in strict_defs:
         left = norm_text(rs.resolve(b.left, n))
@@ -403,7 +426,7 @@ def rule_c(ctx: Context, R: Reporter, pred: FuncInfo):
         if isinstance(b.right, ast.Name):
             special_name = b.right.id
             for c in calls_in(pred.node):
-                if isinstance(c.func, ast.Attribute) and c.func.attr in ("update", "union") and isinstance(c.func.value, ast.Name) and c.func.value.id == special_name and c.args and isinstance(c.args[0], ast.Name):
+                if isinstance(c.func, ast.Attribute) and c.func.attr in ("update", "union", "extend") and isinstance(c.func.value, ast.Name) and c.func.value.id == special_name and c.args and isinstance(c.args[0], ast.Name):
                     ups.add(c.args[0].id)
         else:
             ups = {x.id for x in ast.walk(b.right) if isinstance(x, ast.Name)} & {pper, pref}
